@@ -100,9 +100,37 @@ def render(st, n, opts=None):
             w(".latch " + " ".join(by_port[o] for o in order))
             w(".cname %s" % d["name"])
             continue
+        if d.get("k") == "n":
+            # .names <in_0> ... <out> followed by the single-output cover lines; the reader names the instance after
+            # the driven net, a .cname says otherwise
+            actual_of = dict(c.split("=", 1) for c in conns)
+            formals = []
+            for p in st["defPorts"][r - 1]:
+                if len(st["portPins"][p - 1]) != 1:
+                    raise Unrenderable(".names primitive with a vector port")
+                formals.append(st["portData"][p - 1]["name"])
+            nin = len(formals) - 1
+            if formals != ["in_%d" % j for j in range(nin)] + ["out"]:
+                raise Unrenderable(".names on a cell that is not a logic gate")
+            nets = [actual_of.get(f, "unconn") for f in formals]
+            w(".names " + " ".join(nets))
+            pv = d.get("props")
+            if pv:
+                if nin == 0:
+                    w("1")
+                elif pv == "v0":
+                    w("1" * nin + " 1")
+                else:
+                    w("0" * nin + " 1")
+                    w("1" * nin + " 1")
+            if nets[-1] != d["name"] or opts.get("comments"):
+                w(".cname %s" % d["name"])
+            continue
         sep = " \\\n  " if opts.get("continuation") else " "
         w(kw + " " + st["defData"][r - 1]["name"] + sep + sep.join(conns) if conns else kw + " " + st["defData"][r - 1]["name"])
         w(".cname %s" % d["name"])
+        if d.get("k") in ("u", "v"):
+            w(".attr A %s" % d["k"])
         if d.get("props"):
             w(".param INIT %s" % d["props"])
         if opts.get("comments"):
@@ -121,8 +149,8 @@ def render(st, n, opts=None):
                 if dd != top and dd not in prims:
                     prims.append(dd)
         for r in prims:
-            if st["defData"][r - 1]["name"] == "generic-latch":
-                continue
+            if st["defData"][r - 1]["name"] == "generic-latch" or st["defData"][r - 1]["name"].startswith("logic-gate_"):
+                continue          # the reader makes these itself (.latch / .names)
             w("")
             w(".model %s" % st["defData"][r - 1]["name"])
             i_, o_ = [], []
